@@ -744,7 +744,7 @@ func TestCheck(t *testing.T) {
 		r.Inconclusive("statehelper binary not built: " + err.Error())
 		return
 	}
-	r.Note("rule", "histories of starts on one state directory: {first start, restart, restart with iat-mode override, restart without}, {start with explicit identity arguments, restart without arguments, restart with the same arguments}, {first start, restart x3} for PRNG identities and all three IAT modes; every start is traced with strace, every prefix of its mutating system calls on the directory plus torn writes (1 byte, half, all but one; thorough: every byte) is materialised as a crash state, materialised states at call boundaries are compared with the directory left by a real SIGKILL injected at that call, and a fresh start is run on every crash state; ScrambleSuit ticket store: store/get sequences likewise, judged by creating the client factory; bridge-line round trip by handshakes of real clients (cert and legacy form) with an independent server holding the persisted identity. Non-trivial = crash states in which at least one call of the start had been applied; distinct = (history, step, crash state).")
+	r.Note("rule", "histories of starts on one state directory: {first start, restart, restart with iat-mode override, restart without}, {start with explicit identity arguments, restart without arguments, restart with the same arguments}, {first start, restart x3}, {start, override m1, override m2, plain start} for every ordered pair (m1, m2) of IAT modes, for PRNG identities and all three IAT modes; every start is traced with strace, every prefix of its mutating system calls on the directory plus torn writes (1 byte, half, all but one; thorough: every byte) is materialised as a crash state, materialised states at call boundaries are compared with the directory left by a real SIGKILL injected at that call, and a fresh start is run on every crash state; ScrambleSuit ticket store: store/get sequences likewise, judged by creating the client factory; bridge-line round trip by handshakes of real clients (cert and legacy form) with an independent server holding the persisted identity. Non-trivial = crash states in which at least one call of the start had been applied; distinct = (history, step, crash state).")
 	nID := r.Pick(2, 12)
 	shapes := []struct {
 		name string
@@ -765,6 +765,23 @@ func TestCheck(t *testing.T) {
 				seed := r.Sub("hist", si, k)
 				b := o4.NewBridge(mon.NewRand(seed), 0)
 				runHistory(c, r, sh.name, sh.mk(b, k), r.Thorough() && k == 0, k < r.Pick(1, 3), seed)
+			})
+		}
+	}
+	// every ordered pair of IAT overrides (including back to 0), then a plain start
+	for m1 := 0; m1 < 3; m1++ {
+		for m2 := 0; m2 < 3; m2++ {
+			m1, m2 := m1, m2
+			r.Case(fmt.Sprintf("history/override-sequence/%d-%d", m1, m2), func(c *mon.Case) {
+				seed := r.Sub("ovr", m1, m2)
+				steps := []step{{}, {args: []string{"iat-mode=" + strconv.Itoa(m1)}}, {args: []string{"iat-mode=" + strconv.Itoa(m2)}}, {}}
+				if (m1+m2)%2 == 1 {
+					// the identity given explicitly at first (with its own IAT mode)
+					b := o4.NewBridge(mon.NewRand(seed), 0)
+					steps[0] = step{args: argsOf(b, (m1+1)%3)}
+				}
+				runHistory(c, r, "override-sequence", steps, false, false, seed)
+				r.Count("override_sequences", 1)
 			})
 		}
 	}
